@@ -177,6 +177,8 @@ namespace GeographicLib {
       throw GeographicErr("Invalid ID");
     if (_nNmodels < 1)
       throw GeographicErr("NumModels must be positive");
+    if (_nNmodels > numeric_limits<int>::max() - 2)
+      throw GeographicErr("NumModels too large");
     if (!(_nNconstants == 0 || _nNconstants == 1))
       throw GeographicErr("NumConstants must be 0 or 1");
     if (!(_dt0 > 0)) {
